@@ -146,7 +146,7 @@ def _sx_format(tmpl, *a, **k):
 
 
 def _sx_astype(obj, *a, **k):
-    if isinstance(obj, _np.ndarray) and obj.dtype == object:
+    if isinstance(obj, _np.ndarray) and obj.dtype == object and any(core.is_sym(v) for v in obj.reshape(-1)):
         dt = a[0] if a else k.get('dtype')
         try:
             kind = _np.dtype(dt).kind
